@@ -159,6 +159,16 @@ var c04Texts = []c04Text{
 }
 
 // c04ValidTexts: the subset that is well-formed UTF-8 (writers that check, e.g. crypto/x509)
+func c04GeneralizedTimes() []byte {
+	var body []byte
+	for _, v := range []string{"20240615120000Z", "20240615120000+0200", "20240615120000-0930", "20240615120000", "202406151200", "2024061512",
+		"20240615120000.5", "20240615120000.123Z", "20240101000000", "20241231235959", "19700101000000", "20380119031408"} {
+		body = append(body, 0x18, byte(len(v)))
+		body = append(body, v...)
+	}
+	return append([]byte{0x30, 0x82, byte(len(body) >> 8), byte(len(body))}, body...)
+}
+
 func c04ValidTexts() []c04Text {
 	var out []c04Text
 	for _, t := range c04Texts {
@@ -892,6 +902,13 @@ func genC04(c *Ctx) {
 		{tag: "asn1-utctime-zones", name: "tz.der", data: c04UTCTimes()},
 		{tag: "jwt-numeric-dates", name: "n.jwt", data: jwtWith(map[string]any{"exp": 1709335800, "nbf": 1709335800.5, "iat": 1}, map[string]any{"alg": "none"})},
 		{tag: "ppk", name: "k.ppk", data: fixture("putty/ecdsa-enc-argon2i.ppk")},
+		// GeneralizedTime in the generic dump: with Z, with an offset, and the local-time forms of X.680 46.2 a)
+		// (digits only), with and without seconds and fractions
+		{tag: "asn1-generalizedtime", name: "g.der", data: c04GeneralizedTimes()},
+		// a token whose header names critical extension parameters (RFC 7515 4.1.11, appendix E), one of them a
+		// registered claim name: inspected directly before every other input (tag prefix pred-)
+		{tag: "pred-jwt-crit", name: "crit.jwt", data: jwtWith(map[string]any{"aud": "a", "exp": 1363284000, "sub": "s"},
+			map[string]any{"alg": "ES256", "crit": []string{"exp", "aud", "b64"}, "exp": 1363284000, "b64": false})},
 	}
 	nc := 6
 	if c.Thorough() {
@@ -1019,6 +1036,10 @@ func genC04(c *Ctx) {
 		key := filepath.Ext(in.name)
 		if key == "" {
 			key = strings.TrimRight(in.name, "0123456789_")
+		}
+		if strings.HasPrefix(in.tag, "pred-") {
+			preds = append(preds, i)
+			continue
 		}
 		if !seenFmt[key] && !in.big {
 			seenFmt[key] = true
